@@ -92,7 +92,10 @@ CLAIMS = {
                    "total == number of classified samples, percentage == 1 - wrong/total, and refuses only when the two lengths differ. "
                    "BOUNDED (deciding): synthetic labelled sets, standard and dimension-wise learning, sequences of __call__/test_data with data inside/partly/entirely outside: arg-max clause "
                    "against independently evaluated per-class densities, out-of-range removal, summary consistency, history stability."),
-    "C20": bounded("BOUNDED: normal equations residual on every component grid, design matrix == basis values, C == gradient Gram matrix (own exact reference) incl. anisotropic level "
+    "C20": bounded("PROVED kernel (any number of component grids): all six coefficient-optimisation variants (error per grid, least squares on the validation set, Garcke's linear "
+                   "system; standard and spatially adaptive) leave coefficients in the scheme that sum to one, whatever the validation errors / the lstsq solution are, provided "
+                   "the raw sum is not zero (assumption A-NORMALISABLE: the library divides by it unguarded) -- ghost Sum, loop invariants, induction lemma sum-scale. "
+                   "BOUNDED (deciding for the rest): normal equations residual on every component grid, design matrix == basis values, C == gradient Gram matrix (own exact reference) incl. anisotropic level "
                    "vectors, PSD, every coefficient optimisation variant sums to one; standard and dimension-wise training, d<=3."),
 }
 NOT_APPLICABLE = {}
